@@ -16,7 +16,9 @@ STR_FORMS = ['"{0}"', "'{0}'", '"""{0}"""', 'r"{0}"', '"{0}" ""', "'''{0}'''",
              # name: backslash-newline is a continuation), the name in the second of two concatenated tokens
              'u"{0}"', '"""\\\n{0}"""', '"" "{0}"']
 YIELD_WRAPS = ["plain", "if", "for", "while", "with", "asyncwith", "asyncfor", "try", "except", "else", "finally",
-               "assign", "nestedfn", "return_paren", "if_else_only", "for_else", "while_else", "yield_from", "elif"]
+               "assign", "nestedfn", "return_paren", "if_else_only", "for_else", "while_else", "yield_from", "elif",
+               # several yields: the recorded yield line is the FIRST in source order, nested or not
+               "nested_then_top", "top_then_nested", "two_nested"]
 
 
 class Src:
@@ -121,6 +123,13 @@ def yield_body(rng, src, indent):
         return [f"{i}return (yield 1)"]
     if kind == "nestedfn":
         return [f"{i}def inner():", f"{i}    yield 1", f"{i}return inner"]
+    if kind == "nested_then_top":
+        return [f"{i}if not True:", f"{i}    yield None", f"{i}    return", f"{i}yield 8"]
+    if kind == "top_then_nested":
+        return [f"{i}yield 9", f"{i}for _ in range(1):", f"{i}    yield 10"]
+    if kind == "two_nested":
+        return [f"{i}with open('x') as fh:", f"{i}    pass", f"{i}try:", f"{i}    yield 11", f"{i}finally:", f"{i}    pass",
+                f"{i}while False:", f"{i}    yield 12"]
     return [f"{i}yield 1"]
 
 
